@@ -22,6 +22,9 @@ import (
 	abci "github.com/cometbft/cometbft/abci/types"
 	"github.com/cometbft/cometbft/libs/log"
 	tmproto "github.com/cometbft/cometbft/proto/tendermint/types"
+	servertypes "github.com/cosmos/cosmos-sdk/server/types"
+	"github.com/cosmos/cosmos-sdk/store/rootmulti"
+	storetypes "github.com/cosmos/cosmos-sdk/store/types"
 	simtestutil "github.com/cosmos/cosmos-sdk/testutil/sims"
 	sdk "github.com/cosmos/cosmos-sdk/types"
 	"github.com/cosmos/cosmos-sdk/types/module"
@@ -84,7 +87,14 @@ func c20WholeAppImpl(t *testing.T, a *chain.App, tr *tracer, ctx sdk.Context, ci
 		return
 	}
 	ctx2 := b.BaseApp.NewContext(false, tmproto.Header{Height: ctx.BlockHeight(), Time: ctx.BlockTime(), ChainID: ctx.ChainID()})
-	// the DeFi module stores of the fresh application against the original ones
+	c20CompareApps(tr, a, ctx, b, ctx2)
+	// every account's balances came through as well
+	bo, bn := c20AllBalances(a, ctx), c20AllBalances(b, ctx2)
+	tr.p("contd 0 app.balances ok ok 0 0 %d %d 0", c20BalDelta(map[string]sdk.Int{}, bo), c20BalDelta(map[string]sdk.Int{}, bn))
+}
+
+// the DeFi module stores of application b (context ctx2) against those of a (context ctx): p lines
+func c20CompareApps(tr *tracer, a *chain.App, ctx sdk.Context, b *chain.App, ctx2 sdk.Context) {
 	for _, m := range c20Modules() {
 		do, dn := c20Dump(a, ctx, m.store), c20Dump(b, ctx2, m.store)
 		if po := c20ParamDump(a, ctx, m.store); len(po) > 0 {
@@ -112,7 +122,92 @@ func c20WholeAppImpl(t *testing.T, a *chain.App, tr *tracer, ctx sdk.Context, ci
 				c20EntriesStr(do[x]), c20EntriesStr(dn[x]))
 		}
 	}
-	// every account's balances came through as well
-	bo, bn := c20AllBalances(a, ctx), c20AllBalances(b, ctx2)
-	tr.p("contd 0 app.balances ok ok 0 0 %d %d 0", c20BalDelta(map[string]sdk.Int{}, bo), c20BalDelta(map[string]sdk.Int{}, bn))
+}
+
+// The literal entry point: app.ExportAppStateAndValidators exports the COMMITTED state.  The rich state
+// (a branch of the deliver state) is copied store by store into the deliver state, the block is
+// committed, and the application is exported through that function; a fresh application is initialised
+// from the result.  Done last in a case: the commit ends the deliver state the case's contexts branch from.
+func c20CommittedExport(t *testing.T, a *chain.App, tr *tracer, rich sdk.Context, ci int) {
+	class := "ok"
+	var exported servertypes.ExportedApp
+	if p, msg := safely(func() {
+		dst := a.BaseApp.NewContext(false, rich.BlockHeader())
+		rs, ok := a.BaseApp.CommitMultiStore().(*rootmulti.Store)
+		if !ok {
+			panic("commit multistore is not a rootmulti store")
+		}
+		var names []string
+		keys := rs.StoreKeysByName()
+		for n := range keys {
+			names = append(names, n)
+		}
+		sort.Strings(names)
+		for _, n := range names {
+			kv, isKV := keys[n].(*storetypes.KVStoreKey)
+			if !isKV {
+				continue
+			}
+			src, to := rich.KVStore(kv), dst.KVStore(kv)
+			want := map[string][]byte{}
+			it := src.Iterator(nil, nil)
+			for ; it.Valid(); it.Next() {
+				want[string(it.Key())] = append([]byte{}, it.Value()...)
+			}
+			it.Close()
+			var drop [][]byte
+			it = to.Iterator(nil, nil)
+			for ; it.Valid(); it.Next() {
+				if _, keep := want[string(it.Key())]; !keep {
+					drop = append(drop, append([]byte{}, it.Key()...))
+				}
+			}
+			it.Close()
+			for _, k := range drop {
+				to.Delete(k)
+			}
+			for k, v := range want {
+				to.Set([]byte(k), v)
+			}
+		}
+		a.Commit()
+		var err error
+		exported, err = a.ExportAppStateAndValidators(false, nil, nil)
+		if err != nil {
+			panic(err)
+		}
+	}); p {
+		class = "panic"
+		if len(msg) > 600 {
+			msg = msg[:600]
+		}
+		t.Logf("case %d: commit + ExportAppStateAndValidators panicked: %s", ci, msg)
+		tr.p("# commit + ExportAppStateAndValidators panicked: %s", strings.ReplaceAll(msg, "\n", " "))
+	}
+	tr.p("imp app-export-committed %s", class)
+	if class != "ok" {
+		return
+	}
+	b := chain.New(log.NewNopLogger(), dbm.NewMemDB(), nil, true, map[int64]bool{}, chain.DefaultNodeHome, 5, chain.MakeEncodingConfig(),
+		simtestutil.EmptyAppOptions{}, chain.GetWasmEnabledProposals(), chain.EmptyWasmOpts)
+	if p, msg := safely(func() {
+		b.InitChain(abci.RequestInitChain{Validators: []abci.ValidatorUpdate{}, ConsensusParams: chain.DefaultConsensusParams, AppStateBytes: exported.AppState,
+			Time: rich.BlockTime(), InitialHeight: exported.Height})
+	}); p {
+		class = "panic"
+		if len(msg) > 600 {
+			msg = msg[:600]
+		}
+		t.Logf("case %d: InitChain from ExportAppStateAndValidators panicked: %s", ci, msg)
+		tr.p("# InitChain from ExportAppStateAndValidators panicked: %s", strings.ReplaceAll(msg, "\n", " "))
+	}
+	tr.p("imp app-committed %s", class)
+	if class != "ok" {
+		return
+	}
+	// the fresh application holds what the original one held: balances, and the DeFi stores (digest per module)
+	ctx2 := b.BaseApp.NewContext(false, tmproto.Header{Height: rich.BlockHeight(), Time: rich.BlockTime(), ChainID: rich.ChainID()})
+	src := a.BaseApp.NewContext(true, tmproto.Header{Height: a.LastBlockHeight()})
+	c20CompareApps(tr, a, src, b, ctx2)
+	tr.p("contd 1 app.committed.balances ok ok 0 0 %d %d 0", c20BalDelta(map[string]sdk.Int{}, c20AllBalances(a, src)), c20BalDelta(map[string]sdk.Int{}, c20AllBalances(b, ctx2)))
 }
